@@ -1,0 +1,47 @@
+// Licensed to the Apache Software Foundation (ASF) under one
+// or more contributor license agreements.  See the NOTICE file
+// distributed with this work for additional information
+// regarding copyright ownership.  The ASF licenses this file
+// to you under the Apache License, Version 2.0 (the
+// "License"); you may not use this file except in compliance
+// with the License.  You may obtain a copy of the License at
+//
+//   http://www.apache.org/licenses/LICENSE-2.0
+//
+// Unless required by applicable law or agreed to in writing,
+// software distributed under the License is distributed on an
+// "AS IS" BASIS, WITHOUT WARRANTIES OR CONDITIONS OF ANY
+// KIND, either express or implied.  See the License for the
+// specific language governing permissions and limitations
+// under the License.
+
+//! Verification hook registry. Compiled only with `--cfg datafusion_verif`.
+//!
+//! `point(site, args)` is called by cfg-guarded hook lines at the linearization
+//! points of protocol code. It is a no-op unless an external harness installed
+//! a hook with [`set_hook`]. The hook may block the calling thread (controlled
+//! scheduling), record the event (trace validation) and return a non-zero
+//! value to request fault injection at sites that consult the result.
+
+use std::sync::{Arc, RwLock};
+
+/// Signature of an installed hook.
+pub type Hook = dyn Fn(&'static str, &[i64]) -> i64 + Send + Sync;
+
+static HOOK: RwLock<Option<Arc<Hook>>> = RwLock::new(None);
+
+/// Install (or remove, with `None`) the process-wide hook.
+pub fn set_hook(h: Option<Arc<Hook>>) {
+    *HOOK.write().unwrap() = h;
+}
+
+/// Report reaching `site` with scalar observations `args`.
+/// Returns the hook's answer (0 when no hook is installed).
+#[inline]
+pub fn point(site: &'static str, args: &[i64]) -> i64 {
+    let h = HOOK.read().unwrap().clone();
+    match h {
+        Some(h) => h(site, args),
+        None => 0,
+    }
+}
